@@ -199,7 +199,7 @@ def main(tier, n=None):
     rep.assumptions = ["teed-mode payloads avoid the ESC byte so that Conductor's coloured status lines can be removed unambiguously; forwarded stdout is compared modulo newline placement (blank separator lines are cosmetic), log files byte-exactly",
                        "bytes written by a lingering grandchild that inherited the pipe count as written by the command"]
     rng = common.rng_for("c10", common.base_seed())
-    total = n or (90 if tier == "quick" else 1500)
+    total = n or (500 if tier == "quick" else 5000)
     cases = [gen_case(rng, tier) for _ in range(total)]
     cli.warm()
     res = common.parallel_map(eval_case, cases, timeout=900)
